@@ -623,6 +623,7 @@ impl SimWorld {
             read_failed: std::mem::take(&mut g.read_failed),
             pure_out: g.pure_out.take(),
             items: g.items,
+            wall_ms: 0,
         }
     }
 
